@@ -47,6 +47,11 @@ type Run struct {
 	viol *Violation
 	// InfraErr is set for harness trouble (never a violation).
 	InfraErr string
+
+	// known findings active for this run, and the hits an engine continued past
+	known     map[string]bool
+	SoftKnown int
+	softFirst *Violation
 }
 
 func newRun(prop, tier string, tape *Tape, seed, idx uint64) *Run {
@@ -62,6 +67,7 @@ func newRun0(prop, tier string, tape *Tape, seed, idx uint64) *Run {
 		Property: prop, Tier: tier, Tape: tape, Seed: seed, Index: idx,
 		Faults: map[string]int{}, Probes: map[string]int{}, Config: map[string]any{},
 		maxTrace: 4000, stateSet: map[uint64]struct{}{}, traceHash: 1469598103934665603,
+		known: softKnown,
 	}
 }
 
@@ -114,6 +120,28 @@ func (r *Run) FailSig(class, sig, detail string, facts map[string]any) {
 	}
 	r.Fail(class, detail, facts)
 	r.viol.Sig = sig
+}
+
+// FailSigContinue is FailSig for an observation after which the world is still
+// consistent with its reference model (the engine adopts what it saw and goes on).
+// When (class, sig) is an open known finding handed to this process, the hit is
+// counted and the run continues, so that a different violation later in the same
+// run is still found instead of being cut off by the known one. It reports
+// whether the run was failed. Without an active known finding it is FailSig.
+func (r *Run) FailSigContinue(class, sig, detail string, facts map[string]any) bool {
+	if r.viol != nil {
+		return true
+	}
+	if r.known[class+"|"+sig] {
+		r.SoftKnown++
+		if r.softFirst == nil {
+			r.softFirst = &Violation{Class: class, Sig: sig, Detail: detail, Facts: facts, Step: r.Steps}
+		}
+		r.Logf("KNOWN %s|%s (run continues): %s", class, sig, detail)
+		return false
+	}
+	r.FailSig(class, sig, detail, facts)
+	return true
 }
 
 // Failf is Fail with formatting and no facts.
